@@ -7,10 +7,12 @@ Exact arithmetic (`Int` timestamps of any size, entry lists of any length).  No 
 entries that `eraseRegion` deletes are members of the tier, and `deleteEntry` (exact match first) removes exactly
 the member it is given, however close other entries are (`deleteIvs_of_mem`).
 The floating-point clause of the property is carried by layer R at the end of this file plus the bit-exact
-correspondence run.  Since fix A28 shrinking cuts out only the part of the region inside the span: `erase_unfold_clip`
-(the code path for ANY region), `erase_shrink_clip` / `erase_shrink_outside` (a region sticking out of the span acts as
-its clipped part; one that meets the span in at most one time erases nothing), `erase_shrink_any`, `erase_wf_any`; for a
-region inside the span clipping is the identity (`clip_in`) and the in-span theorems read as before.
+correspondence run.  Since fix A28 (both commits) what the region covers is removed / truncated with the region as given,
+shrinking or not, and the shrink step — shift, re-join, new end — cuts out only the part of the region inside the span:
+`erase_unfold_clip` (the code path for ANY region), `erase_shrink_clip` (a region sticking out of the span acts as its
+clipped part), `erase_shrink_outside` (a region that meets the span in at most one time: shrinking does what not shrinking
+does), `erase_shrink_any`, `erase_wf_any`; for a region inside the span clipping is the identity (`clip_in`) and the
+in-span theorems read as before.
 -/
 namespace C07
 
@@ -43,30 +45,34 @@ theorem clip_in (sh : Bool) (lo hi a b : Int) (hin : sh = true → lo ≤ a ∧ 
     rw [e1, e2]
     constructor <;> omega
 
-/-- the code path in closed form, ANY region `a < b`: the lax match list (taken with the region as given) is the list of
-entries overlapping the region; the body works on the clipped region; an empty clipped region returns an unchanged copy -/
+/-- the code path in closed form, ANY region `a < b`: the lax match list is the list of entries overlapping the region;
+deletion and truncation work with the region as given, exactly as without shrinking; the shrink step works on the clipped
+region and is skipped when that is empty -/
 theorem erase_unfold_clip (t : ITier Int) (hwf : t.WF) (a b : Int) (hab : a < b) (m : EraseMode) (sh : Bool) :
     t.eraseRegion a b m sh =
-      (if sh = true ∧ clipHi sh t.hi b ≤ clipLo sh t.lo a then .ok t
-       else do
-        let nt1 ← eraseCore t (t.es.filter (ov a b)) (clipLo sh t.lo a) (clipHi sh t.hi b) m
-        if sh then shrinkStep nt1 (clipLo sh t.lo a) (clipHi sh t.hi b) else pure nt1) := by
+      (do let nt1 ← eraseCore t (t.es.filter (ov a b)) a b m
+          if sh = true ∧ clipLo sh t.lo a < clipHi sh t.hi b
+          then shrinkStep nt1 (clipLo sh t.lo a) (clipHi sh t.hi b) else pure nt1) := by
   obtain ⟨mt, hc, _, _, hmt, _, _⟩ := C06.crop_norebase t hwf a b hab .lax
   unfold ITier.eraseRegion
   rw [hc, new_of_wf t hwf]
   simp only [bind, Except.bind]
   rw [hmt, getIvs_lax_eq_filter a b hab t.es hwf.pos]
-  by_cases h : sh = true ∧ clipHi sh t.hi b ≤ clipLo sh t.lo a
-  · rw [if_pos h]
-    obtain ⟨rfl, h2⟩ := h
-    have h' : (true && decide (clipHi true t.hi b ≤ clipLo true t.lo a)) = true := by simpa using h2
-    simp only [h', if_true, pure, Except.pure]
-  · rw [if_neg h]
-    have h' : (sh && decide (clipHi sh t.hi b ≤ clipLo sh t.lo a)) = false := by
-      cases sh with
-      | false => rfl
-      | true => simpa using h
-    simp only [h', Bool.false_eq_true, if_false]
+  cases eraseCore t (t.es.filter (ov a b)) a b m with
+  | error e => rfl
+  | ok v =>
+    simp only
+    by_cases h : sh = true ∧ clipLo sh t.lo a < clipHi sh t.hi b
+    · rw [if_pos h]
+      obtain ⟨rfl, h2⟩ := h
+      have h' : (true && decide (clipLo true t.lo a < clipHi true t.hi b)) = true := by simpa using h2
+      simp only [h', if_true]
+    · rw [if_neg h]
+      have h' : (sh && decide (clipLo sh t.lo a < clipHi sh t.hi b)) = false := by
+        cases sh with
+        | false => rfl
+        | true => simpa using h
+      simp only [h', Bool.false_eq_true, if_false]
 
 /-- … and with the region as given when not shrinking or when the region lies inside the span -/
 theorem erase_unfold (t : ITier Int) (hwf : t.WF) (a b : Int) (hab : a < b) (m : EraseMode) (sh : Bool)
@@ -76,7 +82,10 @@ theorem erase_unfold (t : ITier Int) (hwf : t.WF) (a b : Int) (hab : a < b) (m :
           if sh then shrinkStep nt1 a b else pure nt1) := by
   rw [erase_unfold_clip t hwf a b hab m sh]
   obtain ⟨e1, e2⟩ := clip_in sh t.lo t.hi a b hin
-  rw [e1, e2, if_neg (by intro h; omega)]
+  rw [e1, e2]
+  cases sh with
+  | false => simp
+  | true => simp [hab]
 
 /-- 'error' mode: `CollisionError` exactly when some interval overlaps the region -/
 theorem erase_error_mode (t : ITier Int) (hwf : t.WF) (a b : Int) (hab : a < b) (sh : Bool) :
@@ -85,13 +94,6 @@ theorem erase_error_mode (t : ITier Int) (hwf : t.WF) (a b : Int) (hab : a < b) 
   constructor
   · rintro ⟨iv, hiv, ho⟩
     rw [erase_unfold_clip t hwf a b hab .error sh]
-    have hnc : ¬ (sh = true ∧ clipHi sh t.hi b ≤ clipLo sh t.lo a) := by
-      rintro ⟨rfl, hle⟩
-      obtain ⟨e1, e2⟩ := clip_true t.lo t.hi a b
-      rw [e1, e2] at hle
-      have := hwf.pos iv hiv; have := hwf.inLo iv hiv; have := hwf.inHi iv hiv
-      omega
-    rw [if_neg hnc]
     have hm : iv ∈ t.es.filter (ov a b) := List.mem_filter.2 ⟨hiv, by simp [ov, ho]⟩
     cases hf : t.es.filter (ov a b) with
     | nil => rw [hf] at hm; simp at hm
@@ -299,16 +301,52 @@ theorem erase_shrink_straddler (t : ITier Int) (hwf : t.WF) (a b : Int) (hab : a
 /-! ## shrinking with a region that sticks out of the span (fix A28): only the part inside the span is cut out -/
 
 /-- **a region that meets the span in at most one time** (`min b hi ≤ max a lo`: wholly before, wholly after, or touching
-an end): shrinking erases nothing — every mode, `error` included, returns an unchanged copy -/
+an end): shrinking does exactly what not shrinking does — what the region covers is removed / truncated (or, in mode
+`error`, refused), nothing is shifted, the span is unchanged -/
 theorem erase_shrink_outside (t : ITier Int) (hwf : t.WF) (a b : Int) (hab : a < b) (m : EraseMode)
-    (hout : min b t.hi ≤ max a t.lo) : t.eraseRegion a b m true = .ok t := by
-  rw [erase_unfold_clip t hwf a b hab m true]
+    (hout : min b t.hi ≤ max a t.lo) : t.eraseRegion a b m true = t.eraseRegion a b m false := by
+  rw [erase_unfold_clip t hwf a b hab m true, erase_unfold_clip t hwf a b hab m false]
   obtain ⟨e1, e2⟩ := clip_true t.lo t.hi a b
-  rw [e1, e2, if_pos ⟨rfl, hout⟩]
+  rw [e1, e2]
+  have h1 : ¬ max a t.lo < min b t.hi := by omega
+  simp [h1]
+
+/-- deletion and truncation with the region as given are deletion and truncation with the clipped region: the first
+match starts, and the last match ends, inside the span -/
+theorem eraseCore_clip (t : ITier Int) (hwf : t.WF) (a b : Int) (m : EraseMode) :
+    eraseCore t (t.es.filter (ov a b)) a b m =
+      eraseCore t (t.es.filter (ov a b)) (max a t.lo) (min b t.hi) m := by
+  unfold eraseCore
+  cases hh : (t.es.filter (ov a b)).head? with
+  | none => rfl
+  | some f =>
+    cases hg : (t.es.filter (ov a b)).getLast? with
+    | none => rfl
+    | some g =>
+      have hf : f ∈ t.es := (List.mem_filter.1 (List.mem_of_mem_head? (by rw [hh]; rfl))).1
+      have hgm : g ∈ t.es := (List.mem_filter.1 (List.mem_of_getLast? hg)).1
+      have := hwf.inLo f hf
+      have := hwf.inHi g hgm
+      simp only
+      by_cases h1 : f.s < a
+      · have e1 : max a t.lo = a := by omega
+        by_cases h2 : b < g.e
+        · have e2 : min b t.hi = b := by omega
+          rw [e1, e2]
+        · have h2' : ¬ min b t.hi < g.e := by omega
+          rw [e1]
+          simp only [h2, h2', if_false]
+      · have h1' : ¬ f.s < max a t.lo := by omega
+        by_cases h2 : b < g.e
+        · have e2 : min b t.hi = b := by omega
+          rw [e2]
+          simp only [h1, h1', if_false]
+        · have h2' : ¬ min b t.hi < g.e := by omega
+          simp only [h1, h1', h2, h2', if_false]
 
 /-- **erase_shrink_clip**: for ANY region `a < b` whose part inside the span is not empty, shrinking it out is shrinking
-its clipped part `[max a lo, min b hi]` out (the match list, taken with the region as given, is the match list of the
-clipped region: every entry lies inside the span) -/
+its clipped part `[max a lo, min b hi]` out (every entry lies inside the span: the match list of the region as given is
+the match list of the clipped region, and the truncation remnants are the same) -/
 theorem erase_shrink_clip (t : ITier Int) (hwf : t.WF) (a b : Int) (hab : a < b) (m : EraseMode)
     (hne : max a t.lo < min b t.hi) :
     t.eraseRegion a b m true = t.eraseRegion (max a t.lo) (min b t.hi) m true := by
@@ -324,7 +362,7 @@ theorem erase_shrink_clip (t : ITier Int) (hwf : t.WF) (a b : Int) (hab : a < b)
     have := hwf.pos iv hiv; have := hwf.inLo iv hiv; have := hwf.inHi iv hiv
     simp only [ov, decide_eq_decide]
     omega
-  rw [hf]
+  rw [hf, eraseCore_clip t hwf a b m]
 
 /-- **shrinking, ANY region `a < b`** (truncate / categorical): the call succeeds, the result is well-formed, keeps name
 and span start, and the span end decreases by exactly the length of the part of the region inside the span -/
@@ -337,7 +375,10 @@ theorem erase_shrink_any (t : ITier Int) (hwf : t.WF) (a b : Int) (hab : a < b) 
     refine ⟨t', ?_, e2, e3, e4, ?_⟩
     · rw [erase_shrink_clip t hwf a b hab mode hne]; exact e1
     · rw [e5]; omega
-  · exact ⟨t, erase_shrink_outside t hwf a b hab mode (by omega), hwf, rfl, rfl, by omega⟩
+  · obtain ⟨t', e, w⟩ := erase_noshrink t hwf a b hab mode hm
+    refine ⟨t', ?_, w.wf, w.name, w.lo, ?_⟩
+    · rw [erase_shrink_outside t hwf a b hab mode (by omega)]; exact e
+    · rw [w.hi]; omega
 
 /-- 'error' mode when nothing overlaps the region: the call does what 'truncate' does (nothing to delete; when shrinking,
 the later entries move) -/
